@@ -672,13 +672,14 @@ FaultyReads(af) ==
          [op |-> "Stream", stream |-> 2, bytes |-> <<16, 130, 1>>, reader |-> [chunks |-> <<>>, fate |-> ft, with |-> FALSE, cut |-> 2]],
          [op |-> "ReadPacket", h |-> 7, stream |-> 2],
          [op |-> "Stream", stream |-> 2, bytes |-> <<64, 3, 0>>], [op |-> "ReadPacket", h |-> 7, stream |-> 2]>>
-(* a CONNECT whose will had no payload (j = 1), no topic (j = 2) or nothing at all (j = 3) when it was attached, used by several *)
+(* a CONNECT whose will had an empty payload (j = 1), never got a payload (j = 2) or is a fresh PUBLISH (j = 3), used by several   *)
 (* goroutines before anything was ever encoded: whatever the encoder fills in lazily, it must not write it into the shared packet *)
 ConcWillProg(x) ==
   [fam |-> "conc", meta |-> [kind |-> x.kind],
    steps |-> <<[op |-> "New", h |-> 1, type |-> "Connect"], CallOp(1, "SetClientID", <<Txt(2)>>),
-               [op |-> "Pub", h |-> 2, args |-> <<1, IF x.j \in {2, 3} THEN <<>> ELSE Txt(3), IF x.j \in {1, 3} THEN <<>> ELSE Bin(2)>>],
-               CallOp(1, "SetWill", <<[h |-> 2]>>),
+               IF x.j = 1 THEN [op |-> "Pub", h |-> 2, args |-> <<1, Txt(3), <<>>>>] ELSE [op |-> "New", h |-> 2, type |-> "Publish"]>>
+             \o (IF x.j = 2 THEN <<CallOp(2, "SetTopicName", <<Txt(3)>>), CallOp(2, "SetQoS", <<1>>)>> ELSE <<>>)      \* (the payload is never set)
+             \o <<CallOp(1, "SetWill", <<[h |-> 2]>>),
                [op |-> "Conc", hs |-> <<1>>, ops |-> <<"WriteTo", "String", "WriteTo", "Dump">>, procs |-> 4, n |-> IF Thorough THEN 2000 ELSE 300],
                [op |-> "WriteTo", h |-> 1]>>]
 ConcFramesProg(x) ==
